@@ -159,7 +159,6 @@ func KnownNilError(v ssa.Value, b *ssa.BasicBlock) bool {
 	return false
 }
 
-
 // nilAsserting: function h returns normally only if its parameter k (an error) is nil: `func check(err error) { if err !=
 // nil { log.Fatal(err) } }`.  Returns the parameter indices for which this holds.
 func nilAsserting(h *ssa.Function) []int {
